@@ -141,19 +141,32 @@ TR_LEN = {"module": "Trace_Len", "cfg": "Trace_Len.cfg", "family": "len", "args"
 
 TR_MM = {"module": "Trace_MinMax", "cfg": "Trace_MinMax.cfg", "family": "minmax", "args": {"n": ("500", "5000")}, "timeout": 1800}
 
+def tr_mom(n):
+    """arbitrary-f64 histories of the real moment estimators, every value logged as an exact dyadic
+    rational; TLC recomputes the exact statistics in unbounded arithmetic (Big / BigQ / BigStats) and
+    decides the envelope as an exact rational inequality"""
+    return {"module": "Trace_Moments", "cfg": "Trace_Moments.cfg", "family": "moments", "args": {"n": n}, "timeout": 3600}
+
+
+# soundness of the unbounded arithmetic: TLA+ definitions vs TLC integers, Java overrides vs TLA+
+# definitions, power-sum statistics vs Exact.tla
+MC_BIG = {"module": "MC_Big", "cfg": "MC_Big.cfg", "workers": 1}
+MC_BIGSTATS = {"module": "MC_BigStats", "cfg": "MC_BigStats.cfg", "workers": 1, "overrides": {"MaxLen": ("4", "5")}}
+
 HIST_BIG = {"cmd": "direct", "family": "histbig", "args": {"reps": ("200", "3000")}}
 
 GEN_INGEST = {"module": "Gen_Ingest", "cfg": "Gen_Ingest.cfg", "overrides": {"MaxLen": ("4", "4"), "MaxSteps": ("3", "4")}, "family": "ingest"}
 
 PROPS = {
     "C01": {
-        "level_text": "Moments.tla model-checked (TLC, exact rationals): Welford's update equals the textbook mean/variance for every sequence within bounds and is order-free; every TLC-generated sequence replayed on Mean/Variance under six exact embeddings, envelope comparison; long streams (<= 10^6) against the specification's definitions evaluated in i128; Apalache inductive invariant for the order-2 update over unbounded integers (thorough)",
-        "technique": 'TLC model checking of Moments.tla + spec->impl replay of every generated sequence; exact-evaluator long runs; Apalache inductive invariant',
+        "level_text": "Moments.tla model-checked (TLC, exact rationals): Welford's update equals the textbook mean/variance for every sequence within bounds and is order-free; every TLC-generated sequence replayed on Mean/Variance under six exact embeddings, envelope comparison; long streams (<= 10^6) against the specification's definitions evaluated in i128; Apalache inductive invariant for the order-2 update over unbounded integers (thorough); histories of arbitrary full-mantissa f64 values recorded from the real estimators, every value logged as the exact dyadic rational it is, validated by TLC against Trace_Moments.tla: exact statistics from additive power sums in unbounded rational arithmetic (Big / BigQ / BigStats, checked against Exact.tla and TLC integers by MC_Big / MC_BigStats), envelope decided as an exact rational inequality",
+        "technique": 'TLC model checking of Moments.tla + spec->impl replay of every generated sequence; exact-evaluator long runs; Apalache inductive invariant + TLC trace validation of recorded arbitrary-f64 histories in exact unbounded arithmetic (Trace_Moments.tla)',
         "title": "streaming mean/variance equal the exact statistics",
-        "mc": [MC_SEQ],
+        "mc": [MC_BIG, MC_BIGSTATS, MC_SEQ],
         "replay": [gen_seq("Mean,Variance", E05)],
         "direct": [long_job("Mean,Variance", E05, max_n=("100000", "1000000"))],
         "apalache": [{"module": "Ind_Variance", "skip": (True, False)}],
+        "trace": [tr_mom(("400", "4000"))],
         "rule": "every sequence over the lattice {-3,-1,0,2,3} up to the length bound, fed to Mean and Variance under six exact "
                 "affine embeddings (magnitudes 1e-30..1e30, offsets up to 1e12 spreads); distinct = distinct histories; "
                 "non-trivial = n >= 2 and non-constant data",
@@ -162,14 +175,14 @@ PROPS = {
                         "f64 accuracy is observed on lattice data under exact embeddings, not proved for all mantissas"],
     },
     "C02": {
-        "level_text": 'Moments.tla with Merge: AlgIsDef holds in every state reachable by add/merge/clone (Chan/Terriberry/Pebay merges = definition on concatenated ghost data), MergeLaws action property; every chunking x merge tree x direction replayed on ten types; long random chunkings incl. two-block boundary merges',
-        "technique": 'TLC model checking of merge histories + replay of every generated merge tree on the real types',
+        "level_text": 'Moments.tla with Merge: AlgIsDef holds in every state reachable by add/merge/clone (Chan/Terriberry/Pebay merges = definition on concatenated ghost data), MergeLaws action property; every chunking x merge tree x direction replayed on ten types; long random chunkings incl. two-block boundary merges; histories of arbitrary full-mantissa f64 values recorded from the real estimators, every value logged as the exact dyadic rational it is, validated by TLC against Trace_Moments.tla: exact statistics from additive power sums in unbounded rational arithmetic (Big / BigQ / BigStats, checked against Exact.tla and TLC integers by MC_Big / MC_BigStats), envelope decided as an exact rational inequality',
+        "technique": 'TLC model checking of merge histories + replay of every generated merge tree on the real types + TLC trace validation of recorded arbitrary-f64 histories in exact unbounded arithmetic (Trace_Moments.tla)',
         "title": "merge is equivalent to having seen the concatenated data",
-        "mc": [MC_MERGE],
+        "mc": [MC_BIG, MC_BIGSTATS, MC_MERGE],
         "replay": [gen_tree(ALLM, E05), gen_hist(ALLM, "E0,E3,E5")],
         "direct": [long_job(ALLM.replace(",M4", "").replace(",M5", "").replace(",M8", ""), "E0,E3,E5")],
         "apalache": [{"module": "Ind_Variance", "skip": (True, False)}],
-        "trace": [TR_LEN],
+        "trace": [tr_mom(("200", "2000")), TR_LEN],
         "rule": "every sequence over {-1,0,2} up to the length bound, cut into every composition of up to K contiguous chunks "
                 "(empty chunks included), merged in every order and direction of adjacent merges (all binary merge trees); "
                 "plus arbitrary add/merge/clone/fresh histories; ten concrete types; six embeddings",
@@ -177,24 +190,26 @@ PROPS = {
         "assumptions": ["as C01"],
     },
     "C03": {
-        "level_text": 'as C01 for the third and fourth central sums (chain transcription with the OLD lower sums) and the skewness/kurtosis accessors incl. their zero shortcuts',
-        "technique": 'TLC model checking of Moments.tla (orders 3, 4) + replay on Skewness/Kurtosis',
+        "level_text": 'as C01 for the third and fourth central sums (chain transcription with the OLD lower sums) and the skewness/kurtosis accessors incl. their zero shortcuts; histories of arbitrary full-mantissa f64 values recorded from the real estimators, every value logged as the exact dyadic rational it is, validated by TLC against Trace_Moments.tla: exact statistics from additive power sums in unbounded rational arithmetic (Big / BigQ / BigStats, checked against Exact.tla and TLC integers by MC_Big / MC_BigStats), envelope decided as an exact rational inequality',
+        "technique": 'TLC model checking of Moments.tla (orders 3, 4) + replay on Skewness/Kurtosis + TLC trace validation of recorded arbitrary-f64 histories in exact unbounded arithmetic (Trace_Moments.tla)',
         "title": "skewness and kurtosis equal the exact standardized moments",
-        "mc": [MC_SEQ],
+        "mc": [MC_BIG, MC_BIGSTATS, MC_SEQ],
         "replay": [gen_seq("Skewness,Kurtosis", "E0,E1,E2,E3,E5")],
         "direct": [long_job("Skewness,Kurtosis", "E0,E1,E2,E3,E5")],
+        "trace": [tr_mom(("300", "3000"))],
         "rule": "as C01 for Skewness and Kurtosis; the asymmetric lattice yields both signs of skewness, two-point, "
                 "single-outlier, bimodal and progression shapes",
         "bounds": {"quick": "L <= 5", "thorough": "L <= 7"},
         "assumptions": ["as C01"],
     },
     "C04": {
-        "level_text": "Pebay transcription of define_moments! model-checked for P = 4, 6, 8, 10 (ChainIsPebay, AlgIsDef); replay on Moments4 and harness instantiations of orders 4, 5, 6, 8, 10; orders beyond the generator's P from the i128 evaluator, cross-checked against the specification",
-        "technique": 'TLC model checking of the Pebay recurrences + replay on define_moments! types of five orders',
+        "level_text": "Pebay transcription of define_moments! model-checked for P = 4, 6, 8, 10 (ChainIsPebay, AlgIsDef); replay on Moments4 and harness instantiations of orders 4, 5, 6, 8, 10; orders beyond the generator's P from the i128 evaluator, cross-checked against the specification; histories of arbitrary full-mantissa f64 values recorded from the real estimators, every value logged as the exact dyadic rational it is, validated by TLC against Trace_Moments.tla: exact statistics from additive power sums in unbounded rational arithmetic (Big / BigQ / BigStats, checked against Exact.tla and TLC integers by MC_Big / MC_BigStats), envelope decided as an exact rational inequality",
+        "technique": 'TLC model checking of the Pebay recurrences + replay on define_moments! types of five orders + TLC trace validation of recorded arbitrary-f64 histories in exact unbounded arithmetic (Trace_Moments.tla)',
         "title": "define_moments! estimators of any order equal the exact central moments",
-        "mc": [MC_SEQ, MC_P6, MC_P8, MC_P10],
+        "mc": [MC_BIG, MC_BIGSTATS, MC_SEQ, MC_P6, MC_P8, MC_P10],
         "replay": [gen_seq(GENERIC, E05), gen_p10(GENERIC, "E0,E1,E3,E5"), gen_seq(GENERIC, "E0,E1", maxlen=("7", "8"), alphabet="GenAlphabetZeroSkew")],
         "direct": [long_job("Moments4,M6,M10", "E0,E1,E3,E5")],
+        "trace": [tr_mom(("160", "1200"))],
         "rule": "as C01 for define_moments! types of order 4 (crate's Moments4 and a harness instantiation), 5, 6, 8, 10; "
                 "orders above the specification run's P use the harness's exact i128 evaluation of the definition, "
                 "cross-checked against the specification on every order both carry",
@@ -202,12 +217,13 @@ PROPS = {
         "assumptions": ["as C01", "design-level (TLC) check of orders 6/8/10 limited to L <= 3/2/2 by 32-bit integers"],
     },
     "C10": {
-        "level_text": 'SampleDefs invariant of Moments.tla (bias-corrected statistics against textbook definitions on the ghost data); replay of every sequence on every type exposing the statistic',
-        "technique": 'TLC model checking of SampleDefs + replay',
+        "level_text": 'SampleDefs invariant of Moments.tla (bias-corrected statistics against textbook definitions on the ghost data); replay of every sequence on every type exposing the statistic; histories of arbitrary full-mantissa f64 values recorded from the real estimators, every value logged as the exact dyadic rational it is, validated by TLC against Trace_Moments.tla: exact statistics from additive power sums in unbounded rational arithmetic (Big / BigQ / BigStats, checked against Exact.tla and TLC integers by MC_Big / MC_BigStats), envelope decided as an exact rational inequality',
+        "technique": 'TLC model checking of SampleDefs + replay + TLC trace validation of recorded arbitrary-f64 histories in exact unbounded arithmetic (Trace_Moments.tla)',
         "title": "bias-corrected sample statistics follow their textbook definitions",
-        "mc": [MC_SEQ],
+        "mc": [MC_BIG, MC_BIGSTATS, MC_SEQ],
         "replay": [gen_pair("Weighted", "seq", "E0:W0,E3:W1,E5:W2", types="WeightedMeanWithError", maxlen=("4", "5")), gen_seq("Variance,Skewness,Kurtosis," + GENERIC, "E0,E1,E2,E3,E5"), gen_tree("Variance,Kurtosis,Moments4,M6", "E0,E3")],
         "direct": [long_job("Variance,Kurtosis,Moments4,M6", "E0,E3")],
+        "trace": [tr_mom(("200", "2000"))],
         "rule": "as C01; sample_variance / variance_of_mean / error on every type that has them, sample_skewness and "
                 "sample_excess_kurtosis on all define_moments! types, sentinel rows below the minimum sample size",
         "bounds": {"quick": "L <= 5", "thorough": "L <= 7"},
@@ -227,26 +243,27 @@ PROPS = {
         "assumptions": ["bitwise comparisons are implementation against implementation"],
     },
     "C16": {
-        "level_text": 'Sentinels invariant in every family specification; accessor tables at n = 0..4 and constant streams (up to 10^4, full-mantissa embedding) compared exactly',
-        "technique": 'TLC Sentinels invariants + exact replay',
+        "level_text": 'Sentinels invariant in every family specification; accessor tables at n = 0..4 and constant streams (up to 10^4, full-mantissa embedding) compared exactly; histories of arbitrary full-mantissa f64 values recorded from the real estimators, every value logged as the exact dyadic rational it is, validated by TLC against Trace_Moments.tla: exact statistics from additive power sums in unbounded rational arithmetic (Big / BigQ / BigStats, checked against Exact.tla and TLC integers by MC_Big / MC_BigStats), envelope decided as an exact rational inequality',
+        "technique": 'TLC Sentinels invariants + exact replay + TLC trace validation of recorded arbitrary-f64 histories in exact unbounded arithmetic (Trace_Moments.tla)',
         "title": "empty, one-observation and constant samples follow the documented contract",
-        "mc": [MC_W1, MC_C1, MC_SEQ, MC_MERGE],
+        "mc": [MC_BIG, MC_BIGSTATS, MC_W1, MC_C1, MC_SEQ, MC_MERGE],
         "replay": [GEN_INGEST, gen_q("small", "E0"), gen_mm("hist", depth=("3", "3")), gen_pair("Weighted", "seq", "E0:W0,E5:W2,E10:W0,E10:W1,E0:W3", maxlen=("4", "5")), gen_pair("Covariance", "seq", "E0:E0,E3:E5,E10:E10", maxlen=("4", "5")), gen_seq(ALLM, E05 + ",E10"), gen_hist(ALLM, "E0")],
         "direct": [{"cmd": "direct", "family": "rayontiny", "args": {}}, long_job("Mean,Variance,Skewness,Kurtosis,Moments4,M6,M10", E05 + ",E10", max_n="10000")],
+        "trace": [tr_mom(("200", "1000"))],
         "rule": "every accessor of every type at n = 0..4 and on every constant sequence in the enumerated set, sentinel class "
                 "or exact value required",
         "bounds": {"quick": "L <= 5", "thorough": "L <= 7"},
         "assumptions": [],
     },
     "C17": {
-        "level_text": 'VarNonNeg, MeanInRange, EffectiveLenRange, VarianceRange, CauchySchwarz invariants (exact arithmetic cannot go negative); every behaviour replayed under embeddings without conditioning bound (one-ulp spreads, denormals, 1e149) asserting sign/range on every observation; two-block boundary merges',
-        "technique": 'TLC range invariants + replay under extreme exact embeddings + ingestion / large-count direct jobs; Apalache inductive invariants (variance identity, effective_len <= len; thorough)',
+        "level_text": 'VarNonNeg, MeanInRange, EffectiveLenRange, VarianceRange, CauchySchwarz invariants (exact arithmetic cannot go negative); every behaviour replayed under embeddings without conditioning bound (one-ulp spreads, denormals, 1e149) asserting sign/range on every observation; two-block boundary merges; histories of arbitrary full-mantissa f64 values recorded from the real estimators, every value logged as the exact dyadic rational it is, validated by TLC against Trace_Moments.tla: exact statistics from additive power sums in unbounded rational arithmetic (Big / BigQ / BigStats, checked against Exact.tla and TLC integers by MC_Big / MC_BigStats), envelope decided as an exact rational inequality',
+        "technique": 'TLC range invariants + replay under extreme exact embeddings + ingestion / large-count direct jobs; Apalache inductive invariants (variance identity, effective_len <= len; thorough) + TLC trace validation of recorded arbitrary-f64 histories in exact unbounded arithmetic (Trace_Moments.tla)',
         "title": "variances are never negative and means stay within the data range",
-        "mc": [MC_HM, MC_W, MC_C, MC_SEQ, MC_MERGE],
+        "mc": [MC_BIG, MC_BIGSTATS, MC_HM, MC_W, MC_C, MC_SEQ, MC_MERGE],
         "replay": [GEN_INGEST, gen_h("hist", 2, depth=("3", "4")), gen_h("hist", 3), gen_pair("Weighted", "tree", "E0:W0,E6:W1,E7:W2,E8:W0,E9:W1,EM1:W0,E14:W1,E7:W1,E14:W0", maxlen=("3", "4")), gen_pair("Weighted", "seq", "EM1:W0,EM1:W2", maxlen=("4", "5")), gen_pair("Covariance", "tree", "E6:E7,E8:E9,E9:E6,EM1:EM1,E14:E14", maxlen=("3", "4")), gen_seq(ALLM, E09 + ",EM1"), gen_tree(ALLM, "E0,E4,E6,E7,E8,E9,EM1,E14"), gen_hist(ALLM, "E6,E7,E8,E9,EM1")],
         "direct": [long_job("Mean,Variance,Skewness,Kurtosis,Moments4,M6,M10", "E0,E4,E6,E7,E8,E9,E10"), HIST_BIG],
         "apalache": [{"module": "Ind_Variance", "skip": (True, False)}, {"module": "Ind_EffLen", "skip": (True, False)}],
-        "trace": [tr_h(3, n=("5000", "20000"))],
+        "trace": [tr_mom(("250", "2500")), tr_h(3, n=("5000", "20000"))],
         "rule": "all behaviours of C01/C02 replayed under embeddings without any conditioning bound (one-ulp spreads at 2^52, "
                 "denormals, 1e149, offsets 1e15 spreads); sign and range conditions on every observation",
         "bounds": {"quick": "L <= 5; tree L <= 4", "thorough": "L <= 7; tree L <= 5"},
